@@ -248,4 +248,547 @@ theorem head_of_rest (fs : List Fld) (vs : List FV) (hs : Item.smallList (canonF
     · simp only [Item.serList]; exact headTag_ser i _ hs.1
     · exact canonFlds_tags fs vs i (by rw [hc]; simp)
 
+/-! ### schema facts -/
+
+theorem serList_append (a b : List Item) : Item.serList (a ++ b) = Item.serList a ++ Item.serList b := by
+  induction a with
+  | nil => simp [Item.serList]
+  | cons x xs ih => simp [Item.serList, ih]
+
+theorem serList_single (i : Item) : Item.serList [i] = i.ser := by simp [Item.serList]
+
+theorem fldsOK_cons (all : List Fld) (i : Nat) (f : Fld) (fs : List Fld) (h : fldsOK all i (f :: fs) = true) :
+    fldOK all i f = true ∧ (∀ g ∈ fs, g.tag ≠ f.tag) ∧ (f.ignored = true → fs = [] ∧ f.required = false) ∧
+      fldsOK all (i + 1) fs = true := by
+  rw [fldsOK] at h
+  simp only [Bool.and_eq_true, List.all_eq_true, bne_iff_ne, ne_eq, Bool.or_eq_true, Bool.not_eq_true',
+    List.isEmpty_iff] at h
+  obtain ⟨⟨⟨h1, h2⟩, h3⟩, h4⟩ := h
+  refine ⟨h1, h2, ?_, h4⟩
+  intro hi
+  rcases h3 with h3 | h3
+  · rw [hi] at h3; cases h3
+  · exact ⟨h3.1, by simpa using h3.2⟩
+
+theorem fldOK_tag (all : List Fld) (i : Nat) (f : Fld) (h : fldOK all i f = true) :
+    0 < f.tag ∧ f.tag < tagMax ∧ (f.tag ≠ anyTag ∨ f.skip = true) := by
+  cases f with
+  | mk nm tag req sl sk ty =>
+    cases ty <;> (rw [fldOK] at h; simp only [Bool.and_eq_true, decide_eq_true_eq, Bool.or_eq_true, bne_iff_ne] at h) <;>
+      exact ⟨h.1.1.1, h.1.1.2, h.1.2⟩
+
+theorem fldsOK_pos (all : List Fld) : ∀ (i : Nat) (fs : List Fld), fldsOK all i fs = true → ∀ g ∈ fs, 0 < g.tag
+  | _, [], _ => by simp
+  | i, f :: fs, h => by
+    obtain ⟨h1, _, _, h4⟩ := fldsOK_cons all i f fs h
+    intro g hg
+    simp only [List.mem_cons] at hg
+    rcases hg with hg | hg
+    · rw [hg]; exact (fldOK_tag all i f h1).1
+    · exact fldsOK_pos all (i + 1) fs h4 g hg
+
+theorem ignored_iff_skip (all : List Fld) (i : Nat) (f : Fld) (h : fldOK all i f = true) : f.ignored = f.skip := by
+  obtain ⟨_, _, h3⟩ := fldOK_tag all i f h
+  unfold Fld.ignored
+  rcases h3 with h3 | h3
+  · have : (f.tag == anyTag) = false := by simpa using h3
+    simp [this]
+  · simp [h3]
+
+/-- a present (non-absent) following item: nothing, or an item whose tag is neither zero nor `tag` -/
+def FollowOK (tag : Nat) (rest : Bytes) : Prop := rest = [] ∨ ∃ t, headTag rest = some t ∧ t ≠ 0 ∧ t ≠ tag
+
+theorem lookupEnt_key (k : Key) : ∀ (table : List DEnt) (e : DEnt), lookupEnt k table = some e → e.key = k
+  | [], e, h => by simp [lookupEnt] at h
+  | .mk k' ptr ty :: rest, e, h => by
+    simp only [lookupEnt] at h
+    by_cases hk : k' = k
+    · rw [if_pos hk] at h; cases h; exact hk
+    · rw [if_neg hk] at h; exact lookupEnt_key k rest e h
+
+theorem lookupTy_of_lookupEnt (k : Key) : ∀ (table : List DEnt) (e : DEnt), lookupEnt k table = some e → lookupTy k table = e.ty
+  | [], e, h => by simp [lookupEnt] at h
+  | .mk k' ptr ty :: rest, e, h => by
+    simp only [lookupEnt] at h
+    simp only [lookupTy]
+    by_cases hk : k' = k
+    · rw [if_pos hk] at h ⊢; cases h; rfl
+    · rw [if_neg hk] at h ⊢; exact lookupTy_of_lookupEnt k rest e h
+
+theorem normVal_prim (p : PTy) (v : Val) (hw : WFv (.prim p) v) : normVal (.prim p) v = v := by
+  cases v <;> first | rfl | (simp [WFv] at hw)
+
+/-! ### dispatch lookups -/
+
+theorem specDyn_prim (tag : Nat) (prev : List FV) (k : Key) (p : PTy) (hp : p ≠ .interval) (r : Bytes) :
+    ∀ (table : List DEnt) (k0 : Key), lookupEnt k table = some (.mk k0 false (.prim p)) →
+      specDyn tag prev k table r = specPrim tag p r
+  | [], _, h => by simp [lookupEnt] at h
+  | .mk k' ptr (.prim q) :: rest, k0, h => by
+    rw [specDyn]
+    simp only [lookupEnt] at h
+    by_cases hk : k' = k
+    · rw [if_pos hk] at h ⊢
+      simp only [Option.some.injEq, DEnt.mk.injEq, FTy.prim.injEq] at h
+      obtain ⟨_, e2, e3⟩ := h
+      subst e2 e3
+      simp [hp]
+    · rw [if_neg hk] at h ⊢; exact specDyn_prim tag prev k p hp r rest k0 h
+  | .mk k' ptr (.struct sd) :: rest, k0, h => by
+    rw [specDyn]
+    simp only [lookupEnt] at h
+    by_cases hk : k' = k
+    · rw [if_pos hk] at h; simp at h
+    · rw [if_neg hk] at h ⊢; exact specDyn_prim tag prev k p hp r rest k0 h
+  | .mk k' ptr (.dyn a b) :: rest, k0, h => by
+    rw [specDyn]
+    simp only [lookupEnt] at h
+    by_cases hk : k' = k
+    · rw [if_pos hk] at h; simp at h
+    · rw [if_neg hk] at h ⊢; exact specDyn_prim tag prev k p hp r rest k0 h
+  | .mk k' ptr .unsupported :: rest, k0, h => by
+    rw [specDyn]
+    simp only [lookupEnt] at h
+    by_cases hk : k' = k
+    · rw [if_pos hk] at h; simp at h
+    · rw [if_neg hk] at h ⊢; exact specDyn_prim tag prev k p hp r rest k0 h
+
+theorem specDyn_struct (tag : Nat) (prev : List FV) (k : Key) (sd : SD) (hd : sd.descOk = true) (r : Bytes) :
+    ∀ (table : List DEnt) (k0 : Key), lookupEnt k table = some (.mk k0 true (.struct sd)) →
+      specDyn tag prev k table r = specStruct tag sd r
+  | [], _, h => by simp [lookupEnt] at h
+  | .mk k' ptr (.prim q) :: rest, k0, h => by
+    rw [specDyn]
+    simp only [lookupEnt] at h
+    by_cases hk : k' = k
+    · rw [if_pos hk] at h; simp at h
+    · rw [if_neg hk] at h ⊢; exact specDyn_struct tag prev k sd hd r rest k0 h
+  | .mk k' ptr (.struct sd') :: rest, k0, h => by
+    rw [specDyn]
+    simp only [lookupEnt] at h
+    by_cases hk : k' = k
+    · rw [if_pos hk] at h ⊢
+      simp only [Option.some.injEq, DEnt.mk.injEq, FTy.struct.injEq] at h
+      obtain ⟨_, e2, e3⟩ := h
+      subst e2 e3
+      simp [hd]
+    · rw [if_neg hk] at h ⊢; exact specDyn_struct tag prev k sd hd r rest k0 h
+  | .mk k' ptr (.dyn a b) :: rest, k0, h => by
+    rw [specDyn]
+    simp only [lookupEnt] at h
+    by_cases hk : k' = k
+    · rw [if_pos hk] at h; simp at h
+    · rw [if_neg hk] at h ⊢; exact specDyn_struct tag prev k sd hd r rest k0 h
+  | .mk k' ptr .unsupported :: rest, k0, h => by
+    rw [specDyn]
+    simp only [lookupEnt] at h
+    by_cases hk : k' = k
+    · rw [if_pos hk] at h; simp at h
+    · rw [if_neg hk] at h ⊢; exact specDyn_struct tag prev k sd hd r rest k0 h
+
+theorem dentsOK_lookup (k : Key) (sd : SD) :
+    ∀ (table : List DEnt) (k0 : Key) (ptr : Bool), dentsOK table = true → lookupEnt k table = some (.mk k0 ptr (.struct sd)) →
+      SD.OK sd = true
+  | [], _, _, _, h => by simp [lookupEnt] at h
+  | .mk k' p' (.prim q) :: rest, k0, ptr, hd, h => by
+    rw [dentsOK] at hd
+    simp only [lookupEnt] at h
+    by_cases hk : k' = k
+    · rw [if_pos hk] at h; simp at h
+    · rw [if_neg hk] at h; exact dentsOK_lookup k sd rest k0 ptr hd h
+  | .mk k' p' (.struct sd') :: rest, k0, ptr, hd, h => by
+    rw [dentsOK] at hd
+    simp only [Bool.and_eq_true] at hd
+    simp only [lookupEnt] at h
+    by_cases hk : k' = k
+    · rw [if_pos hk] at h
+      simp only [Option.some.injEq, DEnt.mk.injEq, FTy.struct.injEq] at h
+      rw [← h.2.2]; exact hd.1
+    · rw [if_neg hk] at h; exact dentsOK_lookup k sd rest k0 ptr hd.2 h
+  | .mk k' p' (.dyn a b) :: rest, k0, ptr, hd, h => by
+    rw [dentsOK] at hd
+    simp only [lookupEnt] at h
+    by_cases hk : k' = k
+    · rw [if_pos hk] at h; simp at h
+    · rw [if_neg hk] at h; exact dentsOK_lookup k sd rest k0 ptr hd h
+  | .mk k' p' .unsupported :: rest, k0, ptr, hd, h => by
+    rw [dentsOK] at hd
+    simp only [lookupEnt] at h
+    by_cases hk : k' = k
+    · rw [if_pos hk] at h; simp at h
+    · rw [if_neg hk] at h; exact dentsOK_lookup k sd rest k0 ptr hd h
+
+theorem fldOK_struct (all : List Fld) (i : Nat) (nm : String) (tag : Nat) (req sl sk : Bool) (sd : SD)
+    (h : fldOK all i (.mk nm tag req sl sk (.struct sd)) = true) : sd.descOk = true ∧ SD.OK sd = true := by
+  rw [fldOK] at h
+  simp only [Bool.and_eq_true] at h
+  exact h.2
+
+theorem fldOK_dyn (all : List Fld) (i : Nat) (nm : String) (tag : Nat) (req sl sk : Bool) (sel : Nat) (table : List DEnt)
+    (h : fldOK all i (.mk nm tag req sl sk (.dyn sel table)) = true) : sl = false ∧ dentsOK table = true := by
+  rw [fldOK] at h
+  simp only [Bool.and_eq_true, Bool.not_eq_true'] at h
+  exact ⟨h.2.1.1.1, h.2.2⟩
+
+theorem fldOK_unsupported (all : List Fld) (i : Nat) (nm : String) (tag : Nat) (req sl sk : Bool)
+    (h : fldOK all i (.mk nm tag req sl sk .unsupported) = true) : False := by
+  rw [fldOK] at h
+  simp at h
+
+/-! ### field-level helpers -/
+
+theorem specField_absent (nm : String) (tag : Nat) (sl sk : Bool) (ty : FTy) (rest : Bytes) (prev : List FV)
+    (hfo : FollowOK tag rest) (hna : tag ≠ anyTag ∨ rest = []) :
+    specField (.mk nm tag false sl sk ty) rest prev = some (zeroFld (.mk nm tag false sl sk ty), rest) := by
+  rw [specField]
+  by_cases hr : rest = []
+  · rw [if_pos hr]; simp
+  · rw [if_neg hr]
+    rcases hfo with h | ⟨t, ht, h0, hne⟩
+    · exact absurd h hr
+    · rcases hna with hna | hna
+      · simp [ht, h0, hne, hna]
+      · exact absurd hna hr
+
+theorem specField_present (nm : String) (tag : Nat) (req sl sk : Bool) (ty : FTy) (r : Bytes) (prev : List FV)
+    (hne : r ≠ []) (hh : headTag r = some tag) (h0 : tag ≠ 0) :
+    specField (.mk nm tag req sl sk ty) r prev =
+      if sk then (specSkip tag r).bind fun rest => some (.skip false, rest)
+      else if sl then
+        (specMany (specValue tag prev ty) tag r.length r).bind fun (vs, rest) => some (.many vs, rest)
+      else (specValue tag prev ty r).bind fun (v, rest) =>
+          match ty with
+          | .dyn _ _ => some (.dyn (.val false (dynTyOf prev ty) v), rest)
+          | .prim _ => some (.one v, rest)
+          | .struct _ => some (.one v, rest)
+          | .unsupported => some (.one v, rest) := by
+  rw [specField, if_neg hne, hh]
+  simp only [Option.bind_some]
+  rw [if_neg h0, if_neg (fun h => h.2.1 rfl)]
+  cases ty <;> rfl
+
+theorem ser_ne_nil (i : Item) (rest : Bytes) : i.ser ++ rest ≠ [] := by
+  intro h
+  have := ser_length_ge i
+  have hl : (i.ser ++ rest).length = 0 := by rw [h]; rfl
+  rw [List.length_append] at hl
+  omega
+
+/-! ### the specification reads the canonical encoding back as the normalised value -/
+
+theorem headTag_some_ne_nil (r : Bytes) (t : Nat) (h : headTag r = some t) : r ≠ [] := by
+  intro e; subst e; simp [headTag] at h
+
+theorem V_prim (tag : Nat) (prev : List FV) (ty : FTy) (rest : Bytes) (ht : tag < tagMax) (v : Val) (hp : v.isPrim = true)
+    (hw : WFv ty v) (hs : (canonVal tag ty v).Small = true) :
+    specValue tag prev ty ((canonVal tag ty v).ser ++ rest) = some (normVal ty v, rest) := by
+  have : ∃ p, ty = .prim p := by
+    cases v <;> simp only [WFv] at hw <;> first | exact ⟨_, hw.1⟩ | exact ⟨_, hw⟩ | (simp [Val.isPrim] at hp)
+  obtain ⟨p, rfl⟩ := this
+  rw [specValue, specPrim_canon tag p v rest ht hw hs, normVal_prim p v hw]
+
+theorem zeroFld_skip (nm : String) (tag : Nat) (req sl : Bool) (ty : FTy) :
+    zeroFld (.mk nm tag req sl true ty) = .skip false := by
+  cases ty <;> rfl
+
+theorem normFV_one_absent (f : Fld) (v : Val) (hig : f.ignored = false) (hz : (!f.required && specZero f.ty v) = true) :
+    normFV f (.one v) = zeroFld f := by
+  simp [normFV, hig, hz]
+
+theorem normFV_one_present (f : Fld) (v : Val) (hig : f.ignored = false) (hz : ¬ (!f.required && specZero f.ty v) = true) :
+    normFV f (.one v) = .one (normVal f.ty v) := by
+  have : (!f.required && specZero f.ty v) = false := by simpa using hz
+  simp only [normFV, hig, this, Bool.or_self]
+  simp
+
+theorem canonMany_len (tag : Nat) (ty : FTy) : ∀ (vs : List Val), vs.length ≤ (Item.serList (canonMany tag ty vs)).length
+  | [] => by simp
+  | v :: vs => by
+    have := canonMany_len tag ty vs
+    have h8 := ser_length_ge (canonVal tag ty v)
+    simp only [canonMany, Item.serList, List.length_append, List.length_cons]
+    omega
+
+theorem canonMany_head (tag : Nat) (ty : FTy) (rest : Bytes) :
+    ∀ (vs : List Val), vs ≠ [] → Item.smallList (canonMany tag ty vs) = true →
+      Item.serList (canonMany tag ty vs) ++ rest ≠ [] ∧ headTag (Item.serList (canonMany tag ty vs) ++ rest) = some tag
+  | [], h, _ => absurd rfl h
+  | v :: vs, _, hs => by
+    simp only [canonMany, Item.serList, Item.smallList, Bool.and_eq_true, List.append_assoc] at hs ⊢
+    exact ⟨ser_ne_nil _ _, by rw [headTag_ser _ _ hs.1, canonVal_tag]⟩
+
+mutual
+  theorem V_canon (tag : Nat) (prev : List FV) (ty : FTy) (rest : Bytes) (ht : tag < tagMax)
+      (hty : ∀ sd, ty = .struct sd → sd.descOk = true ∧ SD.OK sd = true) :
+      (v : Val) → WFv ty v → (canonVal tag ty v).Small = true →
+        specValue tag prev ty ((canonVal tag ty v).ser ++ rest) = some (normVal ty v, rest)
+    | .int n, hw, hs => V_prim tag prev ty rest ht (.int n) rfl hw hs
+    | .long n, hw, hs => V_prim tag prev ty rest ht (.long n) rfl hw hs
+    | .enum n, hw, hs => V_prim tag prev ty rest ht (.enum n) rfl hw hs
+    | .bool b, hw, hs => V_prim tag prev ty rest ht (.bool b) rfl hw hs
+    | .bytes b, hw, hs => V_prim tag prev ty rest ht (.bytes b) rfl hw hs
+    | .text b, hw, hs => V_prim tag prev ty rest ht (.text b) rfl hw hs
+    | .time n, hw, hs => V_prim tag prev ty rest ht (.time n) rfl hw hs
+    | .interval n, hw, hs => V_prim tag prev ty rest ht (.interval n) rfl hw hs
+    | .struct fs, hw, hs => by
+      cases ty with
+      | prim p => simp [WFv] at hw
+      | dyn a b => simp [WFv] at hw
+      | unsupported => simp [WFv] at hw
+      | struct sd =>
+        obtain ⟨hd, hok⟩ := hty sd rfl
+        cases sd with
+        | mk nm t0 fields =>
+          rw [specValue, if_pos hd]
+          simp only [WFv, SD.fields] at hw
+          simp only [canonVal, SD.fields, normVal] at hs ⊢
+          simp only [Item.Small, Bool.and_eq_true, decide_eq_true_eq] at hs
+          rw [SD.OK] at hok
+          have hf := Flds_canon fields 0 fields fs [] hok hw hs.2
+          rw [specStruct, cutStruct_eq]
+          simp only [Item.ser, List.append_assoc]
+          rw [cutHeader_header tag structCode _ _ ht (by decide) hs.1.2]
+          simp only
+          have hfit : (Item.serList (canonFlds fields fs)).length ≤ (Item.serList (canonFlds fields fs) ++ rest).length := by
+            simp
+          rw [if_pos hfit]
+          have e1 : List.take (Item.serList (canonFlds fields fs)).length (Item.serList (canonFlds fields fs) ++ rest) =
+              Item.serList (canonFlds fields fs) := by
+            rw [List.take_append_of_le_length (by omega)]; exact List.take_of_length_le (by omega)
+          have e2 : List.drop (Item.serList (canonFlds fields fs)).length (Item.serList (canonFlds fields fs) ++ rest) = rest := by
+            rw [List.drop_append]; simp
+          simp only [Option.bind_some]
+          rw [e1, e2, hf]
+          simp [tagOk]
+  termination_by structural v _ _ => v
+  theorem Flds_canon (all : List Fld) : (i : Nat) → (fs : List Fld) → (vs : List FV) → (prev : List FV) →
+      fldsOK all i fs = true → WFflds fs vs prev → Item.smallList (canonFlds fs vs) = true →
+      specFields fs (Item.serList (canonFlds fs vs)) prev = some (normFlds fs vs, [])
+    | _, [], [], _, _, _, _ => by simp [canonFlds, Item.serList, specFields, normFlds]
+    | _, [], _ :: _, _, _, hw, _ => by simp [WFflds] at hw
+    | _, _ :: _, [], _, _, hw, _ => by simp [WFflds] at hw
+    | i, f :: fs, v :: vs, prev, hok, hw, hs => by
+      obtain ⟨hf, hdist, hig, hrest⟩ := fldsOK_cons all i f fs hok
+      rw [WFflds] at hw
+      obtain ⟨hwv, hwr⟩ := hw
+      simp only [canonFlds] at hs ⊢
+      rw [smallList_append, Bool.and_eq_true] at hs
+      rw [serList_append]
+      have hfollow : FollowOK f.tag (Item.serList (canonFlds fs vs)) := by
+        rcases head_of_rest fs vs hs.2 with h | ⟨t, h1, h2⟩
+        · left; exact h
+        · right
+          obtain ⟨g, hg, e⟩ := emitTags_sub fs t h2
+          refine ⟨t, h1, ?_, ?_⟩
+          · have := fldsOK_pos all (i + 1) fs hrest g hg; omega
+          · rw [← e]; exact hdist g hg
+      have hlast : f.ignored = true → Item.serList (canonFlds fs vs) = [] ∧ f.required = false := by
+        intro h
+        obtain ⟨e, hr⟩ := hig h
+        subst e
+        exact ⟨by simp [canonFlds, Item.serList], hr⟩
+      have h1 := FV_canon all i f prev _ hf hfollow hlast v hwv hs.1
+      have h2 := Flds_canon all (i + 1) fs vs (prev ++ [normFV f v]) hrest hwr hs.2
+      rw [specFields, h1]
+      simp only [Option.bind_some]
+      rw [h2]
+      simp [normFlds]
+  termination_by structural _ _ vs _ _ _ _ => vs
+  theorem FV_canon (all : List Fld) (i : Nat) (f : Fld) (prev : List FV) (rest : Bytes)
+      (hf : fldOK all i f = true) (hfo : FollowOK f.tag rest) (hlast : f.ignored = true → rest = [] ∧ f.required = false) :
+      (v : FV) → WFfv f v prev → Item.smallList (canonFV f v) = true →
+      specField f (Item.serList (canonFV f v) ++ rest) prev = some (normFV f v, rest)
+    | .skip nn, hw, _ => by
+      cases f with
+      | mk nm tag req sl sk ty =>
+        simp only [WFfv] at hw
+        obtain ⟨hr, hreq⟩ := hlast hw
+        have hsk := ignored_iff_skip all i _ hf
+        rw [hw] at hsk
+        simp only [Fld.required, Fld.skip] at hreq hsk
+        subst hreq hr hsk
+        simp only [canonFV, Item.serList, List.nil_append]
+        rw [specField_absent nm tag sl true ty [] prev (Or.inl rfl) (Or.inr rfl), zeroFld_skip]
+        rfl
+    | .one v, hw, hs => by
+      cases f with
+      | mk nm tag req sl sk ty =>
+        simp only [WFfv, Fld.slice, Fld.ty] at hw
+        obtain ⟨hsl, hig, hwv⟩ := hw
+        obtain ⟨hpos, hlt, _⟩ := fldOK_tag all i _ hf
+        simp only [Fld.tag] at hpos hlt hfo
+        have hig' : (tag == anyTag) = false ∧ sk = false := by
+          simpa [Fld.ignored, Fld.tag, Fld.skip] using hig
+        have hna : tag ≠ anyTag := by simpa using hig'.1
+        subst hsl
+        by_cases hz : (!req && specZero ty v) = true
+        · have hreq : req = false := by
+            cases req
+            · rfl
+            · simp at hz
+          subst hreq
+          have hc : canonFV (.mk nm tag false false sk ty) (.one v) = [] := by
+            simp only [canonFV, Fld.skip, Fld.tag, Fld.required, Fld.ty, hig'.1, hig'.2, Bool.or_false]
+            simp only [Bool.false_eq_true, if_false]
+            exact if_pos hz
+          rw [hc]
+          simp only [Item.serList, List.nil_append]
+          rw [specField_absent nm tag false sk ty rest prev hfo (Or.inl hna)]
+          rw [normFV_one_absent _ v hig hz]
+        · have hc : canonFV (.mk nm tag req false sk ty) (.one v) = [canonVal tag ty v] := by
+            simp only [canonFV, Fld.skip, Fld.tag, Fld.required, Fld.ty, hig'.1, hig'.2, Bool.or_false]
+            simp only [Bool.false_eq_true, if_false]
+            exact if_neg hz
+          rw [hc] at hs ⊢
+          simp only [Item.smallList, Bool.and_true] at hs
+          rw [serList_single]
+          rw [specField_present nm tag req false sk ty _ prev (ser_ne_nil _ _)
+            (by rw [headTag_ser _ _ hs, canonVal_tag]) (by omega)]
+          rw [if_neg (by simp [hig'.2]), if_neg (by simp)]
+          have hty : ∀ sd, ty = .struct sd → sd.descOk = true ∧ SD.OK sd = true := by
+            intro sd e; subst e; exact fldOK_struct all i nm tag req false sk sd hf
+          rw [V_canon tag prev ty rest hlt hty v hwv hs]
+          rw [normFV_one_present _ v hig hz]
+          simp only [Option.bind_some, Fld.ty]
+          cases ty with
+          | prim p => rfl
+          | struct sd => rfl
+          | unsupported => rfl
+          | dyn a b => cases v <;> simp [WFv] at hwv
+    | .many vs, hw, hs => by
+      cases f with
+      | mk nm tag req sl sk ty =>
+        simp only [WFfv, Fld.slice, Fld.ty, Fld.required] at hw
+        obtain ⟨hsl, hig, hne, hwv⟩ := hw
+        obtain ⟨hpos, hlt, _⟩ := fldOK_tag all i _ hf
+        simp only [Fld.tag] at hpos hlt hfo
+        have hig' : (tag == anyTag) = false ∧ sk = false := by
+          simpa [Fld.ignored, Fld.tag, Fld.skip] using hig
+        have hna : tag ≠ anyTag := by simpa using hig'.1
+        subst hsl
+        have hc : canonFV (.mk nm tag req true sk ty) (.many vs) = canonMany tag ty vs := by
+          simp [canonFV, Fld.skip, Fld.tag, Fld.ty, hig'.1, hig'.2]
+        rw [hc] at hs ⊢
+        by_cases hv : vs = []
+        · subst hv
+          have hreq : req = false := by
+            cases req
+            · rfl
+            · exact absurd rfl (hne rfl)
+          subst hreq
+          simp only [canonMany, Item.serList, List.nil_append]
+          rw [specField_absent nm tag true sk ty rest prev hfo (Or.inl hna)]
+          simp [normFV, normMany, zeroFld, hig'.2]
+        · obtain ⟨hne', hh⟩ := canonMany_head tag ty rest vs hv hs
+          rw [specField_present nm tag req true sk ty _ prev hne' hh (by omega)]
+          rw [if_neg (by simp [hig'.2]), if_pos rfl]
+          have hty : ∀ sd, ty = .struct sd → sd.descOk = true ∧ SD.OK sd = true := by
+            intro sd e; subst e; exact fldOK_struct all i nm tag req true sk sd hf
+          have hlen : vs.length ≤ (Item.serList (canonMany tag ty vs) ++ rest).length := by
+            rw [List.length_append]
+            have := canonMany_len tag ty vs
+            omega
+          rw [Many_canon tag prev ty rest hlt (by omega) hty hfo vs _ hv hlen hwv hs]
+          simp [normFV, hig, Fld.ty]
+    | .dyn d, hw, hs => Dyn_canon all i f prev rest hf hfo hlast d hw hs
+  termination_by structural v _ _ => v
+  theorem Many_canon (tag : Nat) (prev : List FV) (ty : FTy) (rest : Bytes) (ht : tag < tagMax) (h0 : tag ≠ 0)
+      (hty : ∀ sd, ty = .struct sd → sd.descOk = true ∧ SD.OK sd = true) (hfo : FollowOK tag rest) :
+      (vs : List Val) → (fuel : Nat) → vs ≠ [] → vs.length ≤ fuel → WFmany ty vs →
+      Item.smallList (canonMany tag ty vs) = true →
+      specMany (specValue tag prev ty) tag fuel (Item.serList (canonMany tag ty vs) ++ rest) = some (normMany ty vs, rest)
+    | [], _, hne, _, _, _ => absurd rfl hne
+    | _ :: _, 0, _, hl, _, _ => by simp at hl
+    | v :: vs, fuel + 1, _, hl, hw, hs => by
+      rw [WFmany] at hw
+      simp only [canonMany, Item.serList, Item.smallList, Bool.and_eq_true, List.append_assoc] at hs ⊢
+      rw [specMany, V_canon tag prev ty (Item.serList (canonMany tag ty vs) ++ rest) ht hty v hw.1 hs.1]
+      simp only [Option.bind_some]
+      by_cases hv : vs = []
+      · subst hv
+        simp only [canonMany, Item.serList, List.nil_append, normMany]
+        rcases hfo with h | ⟨t, h1, h2, h3⟩
+        · subst h; simp
+        · rw [if_neg (headTag_some_ne_nil rest t h1), h1]
+          simp [h2, h3]
+      · have ih := Many_canon tag prev ty rest ht h0 hty hfo vs fuel hv (by simp at hl; omega) hw.2 hs.2
+        obtain ⟨hne', hh⟩ := canonMany_head tag ty rest vs hv hs.2
+        rw [if_neg hne', hh]
+        simp only [Option.bind_some]
+        rw [if_neg h0, if_neg (fun h => h rfl), ih]
+        simp [normMany]
+  termination_by structural vs _ _ _ _ _ => vs
+  theorem Dyn_canon (all : List Fld) (i : Nat) (f : Fld) (prev : List FV) (rest : Bytes)
+      (hf : fldOK all i f = true) (hfo : FollowOK f.tag rest) (hlast : f.ignored = true → rest = [] ∧ f.required = false) :
+      (d : DynV) → WFfv f (.dyn d) prev → Item.smallList (canonFV f (.dyn d)) = true →
+      specField f (Item.serList (canonFV f (.dyn d)) ++ rest) prev = some (normFV f (.dyn d), rest)
+    | .bad k, hw, _ => by simp [WFfv] at hw
+    | .nil, hw, _ => by
+      cases f with
+      | mk nm tag req sl sk ty =>
+        simp only [WFfv, Fld.slice, Fld.ty, Fld.required] at hw
+        obtain ⟨hsl, hig, hreq, sel, table, hty⟩ := hw
+        simp only [Fld.tag] at hfo
+        have hig' : (tag == anyTag) = false ∧ sk = false := by
+          simpa [Fld.ignored, Fld.tag, Fld.skip] using hig
+        have hna : tag ≠ anyTag := by simpa using hig'.1
+        subst hsl hreq hty
+        have hc : canonFV (.mk nm tag false false sk (.dyn sel table)) (.dyn .nil) = [] := by
+          simp [canonFV, canonDyn, Fld.skip, Fld.tag, hig'.1, hig'.2]
+        rw [hc]
+        simp only [Item.serList, List.nil_append]
+        rw [specField_absent nm tag false sk _ rest prev hfo (Or.inl hna)]
+        simp [normFV, zeroFld, hig'.2]
+    | .val p ty' v, hw, hs => by
+      cases f with
+      | mk nm tag req sl sk ty =>
+        simp only [WFfv, Fld.slice, Fld.ty] at hw
+        obtain ⟨hsl, hig, ⟨sel, table, fv, k, e, hty, hprev, hkey, hlook, hdec, hety⟩, hwv⟩ := hw
+        obtain ⟨hpos, hlt, _⟩ := fldOK_tag all i _ hf
+        simp only [Fld.tag] at hpos hlt hfo
+        have hig' : (tag == anyTag) = false ∧ sk = false := by
+          simpa [Fld.ignored, Fld.tag, Fld.skip] using hig
+        subst hsl hty
+        obtain ⟨_, hdents⟩ := fldOK_dyn all i nm tag req false sk sel table hf
+        have hc : canonFV (.mk nm tag req false sk (.dyn sel table)) (.dyn (.val p ty' v)) = [canonVal tag ty' v] := by
+          simp [canonFV, canonDyn, Fld.skip, Fld.tag, hig'.1, hig'.2]
+        rw [hc] at hs ⊢
+        simp only [Item.smallList, Bool.and_true] at hs
+        rw [serList_single]
+        rw [specField_present nm tag req false sk _ _ prev (ser_ne_nil _ _)
+          (by rw [headTag_ser _ _ hs, canonVal_tag]) (by omega)]
+        rw [if_neg (by simp [hig'.2]), if_neg (by simp)]
+        have hdt : dynTyOf prev (.dyn sel table) = ty' := by
+          simp only [dynTyOf, hprev, hkey]
+          rw [lookupTy_of_lookupEnt k table e hlook, hety]
+        have hval : specValue tag prev (.dyn sel table) ((canonVal tag ty' v).ser ++ rest) = some (normVal ty' v, rest) := by
+          rw [specValue]
+          simp only [hprev, hkey]
+          cases e with
+          | mk k0 ptr ety =>
+            simp only [DEnt.ty] at hety
+            subst hety
+            cases ety with
+            | prim q =>
+              simp only [DEnt.decodable, Bool.and_eq_true, Bool.not_eq_true', bne_iff_ne, ne_eq] at hdec
+              obtain ⟨hp, hq⟩ := hdec
+              subst hp
+              rw [specDyn_prim tag prev k q hq _ table k0 hlook, specPrim_canon tag q v rest hlt hwv hs,
+                normVal_prim q v hwv]
+            | struct sd =>
+              simp only [DEnt.decodable, Bool.and_eq_true] at hdec
+              obtain ⟨hp, hd⟩ := hdec
+              subst hp
+              have hok := dentsOK_lookup k sd table k0 true hdents hlook
+              have := V_canon tag prev (.struct sd) rest hlt (fun sd' e => by cases e; exact ⟨hd, hok⟩) v hwv hs
+              rw [specValue, if_pos hd] at this
+              rw [specDyn_struct tag prev k sd hd _ table k0 hlook, this]
+            | dyn a b => simp [DEnt.decodable] at hdec
+            | unsupported => simp [DEnt.decodable] at hdec
+        rw [hval]
+        simp only [Option.bind_some, hdt]
+        simp [normFV]
+  termination_by structural d _ _ => d
+end
+
 end Kmip
